@@ -8,4 +8,11 @@ def run(tier, seed):
     res = rx_obligations.c10_obligations(tier)
     # Constant typing by suffix / prefix and spelling carried unchanged: term obligations of the constant productions
     res.add(G.gx(["_parse_constant", "_parse_unified_string_literal", "_parse_unified_wstring_literal"], ["term", "rte"], "C10/gx", tier))
+    # "reported through the error callback": every error rule / illegal character reaches the callback exactly once, at its
+    # own position (contracts of CLexer._error and CLexer._match_token, shared with C09)
+    from pyvc.smt_props import run_functions
+    import contracts.parser_core  # noqa: F401
+    import contracts.lexer as LX
+    from props import lexreplay
+    res.add(lexreplay.attach(run_functions(LX.FUNCS_BASE, "C10/smt", tier)))
     return res
